@@ -23,6 +23,7 @@ RULE = {
     "C09": ("same runs as C08 with wider limit combinations (n from 1); non-trivial = the tree was split at least once; distinct = "
             "distinct (limits, kernel class, data kind, number of leaves, depth)"),
 }
+KEY_EVENT = "SPLIT_SEARCH"
 STATE_MEASURE = ("abstract KAURI growth states reached: (n_clusters, max_clusters, sorted leaves-per-cluster counts, set of admissible "
                  "assignment kinds) at SPLIT_SEARCH events")
 COMPONENTS_REAL = ["gemclus.tree.kauri.Kauri.fit / Tree / predict / score", "compiled gemclus.tree._utils.find_best_split and gemini_objective (prebuilt extension)",
